@@ -6,7 +6,7 @@ META = {
              'polling round; also free-running and single-task runs) and serial; every task emits unique tokens '
              'through labtech.logger (info/warning/error) and, on process backends, through print/sys.std*.write in a '
              'planned pattern (no flush, one flush, several flushes, several lines per flush, write without newline, '
-             'stderr, thousands of lines in the thorough tier). A logging.Handler on labtech.logger in the caller '
+             'stderr, thousands of lines in the thorough tier); in 45 % of the runs some tasks fail AFTER emitting (ValueError / SystemExit / unpicklable exception, continue_on_failure=True). A logging.Handler on labtech.logger in the caller '
              'collects records; it is read at the moment run_tasks returns. Oracle: every emitted token occurs '
              'exactly once over all received records. Distinct by (DAG, patterns, backend, schedule seed); '
              'non-trivial when the task finishing last emits something or a task flushes more than once.'),
